@@ -16,21 +16,39 @@ import (
 )
 
 type thread struct {
+	s    *Sched
 	tid  int
 	site string
 	done bool
 	wake chan struct{}
 }
 
+// goroutine id -> *thread, for every scheduler (the hook handler is process-global)
+var registry sync.Map
+
+func init() { verifhook.Set(globalAt) }
+
+// globalAt is the process-wide hook handler: goroutines managed by a live scheduler park, goroutines
+// of a closed scheduler stop for good (so that an abandoned system cannot keep running in the
+// background), everything else passes through.
+func globalAt(site string) {
+	v, ok := registry.Load(goid())
+	if !ok {
+		return
+	}
+	t := v.(*thread)
+	t.s.at(t, site)
+}
+
 type Sched struct {
 	mu      sync.Mutex
 	note    chan struct{}
 	threads []*thread
-	byGoid  map[int64]*thread
 	active  int // managed goroutines currently running (not parked, not finished)
 	// Filter decides which sites park (nil = all). Sites that do not park are passed through.
 	Filter func(site string) bool
 	Hung   bool
+	closed bool
 }
 
 func goid() int64 {
@@ -46,34 +64,37 @@ func goid() int64 {
 
 // New creates a scheduler and installs it as the verifhook handler.
 func New() *Sched {
-	s := &Sched{byGoid: map[int64]*thread{}, note: make(chan struct{}, 1)}
-	verifhook.Set(s.At)
+	s := &Sched{note: make(chan struct{}, 1)}
 	return s
 }
 
-// Close removes the hook handler and releases every parked goroutine (they run free).
+// Close abandons the scheduler: parked goroutines stay parked for ever, goroutines that reach a
+// hook later stop there, and Go no longer starts anything.
 func (s *Sched) Close() {
-	verifhook.Set(nil)
 	s.mu.Lock()
-	for _, t := range s.threads {
-		if !t.done && t.site != "" {
-			t.site = ""
-			close(t.wake)
-		}
-	}
-	s.byGoid = map[int64]*thread{}
+	s.closed = true
 	s.mu.Unlock()
 }
 
-// At is the hook handler: parks the calling goroutine if it is managed.
+// At parks the calling goroutine if it is managed by this scheduler.
 func (s *Sched) At(site string) {
-	if s.Filter != nil && !s.Filter(site) {
+	v, ok := registry.Load(goid())
+	if !ok {
 		return
 	}
-	g := goid()
+	if t := v.(*thread); t.s == s {
+		s.at(t, site)
+	}
+}
+
+func (s *Sched) at(t *thread, site string) {
 	s.mu.Lock()
-	t := s.byGoid[g]
-	if t == nil {
+	if s.closed {
+		s.active--
+		s.mu.Unlock()
+		select {} // abandoned system: never continue
+	}
+	if s.Filter != nil && !s.Filter(site) {
 		s.mu.Unlock()
 		return
 	}
@@ -94,21 +115,23 @@ func (s *Sched) Yield(site string) { s.At(site) }
 // only registers and starts the goroutine; the enclosing Step waits for it.
 func (s *Sched) Go(f func()) int {
 	s.mu.Lock()
-	t := &thread{tid: len(s.threads)}
+	if s.closed {
+		s.mu.Unlock()
+		return -1
+	}
+	t := &thread{s: s, tid: len(s.threads)}
 	s.threads = append(s.threads, t)
 	s.active++
-	inside := s.byGoid[goid()] != nil
+	_, inside := registry.Load(goid())
 	s.mu.Unlock()
 	go func() {
 		g := goid()
-		s.mu.Lock()
-		s.byGoid[g] = t
-		s.mu.Unlock()
+		registry.Store(g, t)
 		defer func() {
+			registry.Delete(g)
 			s.mu.Lock()
 			t.done = true
 			t.site = ""
-			delete(s.byGoid, g)
 			s.active--
 			s.mu.Unlock()
 			s.ping()
@@ -120,6 +143,9 @@ func (s *Sched) Go(f func()) int {
 	}
 	return t.tid
 }
+
+// WaitQuiet blocks until every managed goroutine is parked or finished.
+func (s *Sched) WaitQuiet() bool { return s.waitQuiet() }
 
 func (s *Sched) ping() {
 	select {
